@@ -359,6 +359,7 @@ struct Shared<'a> {
     transitions: AtomicU64,
     injections: AtomicU64,
     validated: AtomicU64,
+    divergences: AtomicU64,
     viol_count: AtomicU64,
 }
 
@@ -835,11 +836,22 @@ fn worker<S: System>(sys: &S, cfg: &Config, sh: &Shared, wid: usize) -> WorkerOu
             buf.clear();
             sys.canon(&base, &mut buf);
             if fingerprint(&buf) != sh.nodes[sid as usize].cfp {
-                *sh.err.lock().unwrap() = Some(format!("replay divergence: rebuilt state differs from the recorded one for history {:?}", hist.iter().map(|s| sys.fmt_step(*s)).collect::<Vec<_>>()));
-                sh.stop.store(true, Ordering::Relaxed);
-                break 'outer;
+                // The same history produced another concrete state than when the state was discovered.  The
+                // harness is deterministic (this comparison has succeeded billions of times on the unchanged
+                // tree), so the subject's behaviour depends on something outside the object: state shared
+                // between instances or left behind by earlier ones (a static, a thread-local).  That alone is
+                // not a verdict - no property forbids it as long as every answer is right - so the state that
+                // was actually rebuilt is expanded like any other (all oracles apply to its successors) and the
+                // event is counted; the run is then no longer exhaustive in the stated sense.
+                sh.divergences.fetch_add(1, Ordering::Relaxed);
+                if sh.divergences.load(Ordering::Relaxed) > 200_000 {
+                    *sh.err.lock().unwrap() = Some(format!("replay divergence on more than 200000 states, e.g. history {:?}", hist.iter().map(|s| sys.fmt_step(*s)).collect::<Vec<_>>()));
+                    sh.stop.store(true, Ordering::Relaxed);
+                    break 'outer;
+                }
+            } else {
+                sh.validated.fetch_add(1, Ordering::Relaxed);
             }
-            sh.validated.fetch_add(1, Ordering::Relaxed);
             ops.clear();
             sys.enabled(&base, &mut ops);
             let can_inject = cfg.inject && sys.may_inject(&base);
@@ -1006,6 +1018,7 @@ pub fn explore<S: System>(sys: &S, cfg: &Config) -> Report {
 
     let mut depth = 0u32;
     let mut capped = String::new();
+    let mut total_divergences = 0u64;
     while !frontier.is_empty() {
         if depth >= cfg.max_depth {
             capped = format!("max_depth {} reached with {} unexpanded states", cfg.max_depth, frontier.len());
@@ -1022,6 +1035,7 @@ pub fn explore<S: System>(sys: &S, cfg: &Config) -> Report {
             transitions: AtomicU64::new(0),
             injections: AtomicU64::new(0),
             validated: AtomicU64::new(0),
+            divergences: AtomicU64::new(0),
             viol_count: AtomicU64::new(0),
         };
         let mut first_viol_at: Option<Instant> = None;
@@ -1058,6 +1072,11 @@ pub fn explore<S: System>(sys: &S, cfg: &Config) -> Report {
         rep.transitions += sh.transitions.load(Ordering::Relaxed);
         rep.injections += sh.injections.load(Ordering::Relaxed);
         rep.replays_validated += sh.validated.load(Ordering::Relaxed);
+        let dv = sh.divergences.load(Ordering::Relaxed);
+        if dv > 0 {
+            *rep.counters.entry("replay_divergences(subject_depends_on_state_outside_the_object)".into()).or_insert(0) += dv;
+            total_divergences += dv;
+        }
         let stopped = sh.stop.load(Ordering::Relaxed);
         if let Some(e) = sh.err.lock().unwrap().take() {
             rep.machinery_error = Some(e);
@@ -1159,6 +1178,9 @@ pub fn explore<S: System>(sys: &S, cfg: &Config) -> Report {
         rep.counters.insert("raw_identity_masked_words".into(), raw_mask.iter().filter(|b| !**b).count() as u64);
     }
     rep.states = nodes.len() as u64;
+    if total_divergences > 0 && capped.is_empty() {
+        capped = format!("{total_divergences} rebuilt states differed from the recorded ones (the subject is not a function of its own history); merged search not exhaustive");
+    }
     rep.exhaustive = capped.is_empty() && all_viols.is_empty();
     if capped.is_empty() && !all_viols.is_empty() {
         capped = "violating transitions are not expanded further".into();
